@@ -77,6 +77,13 @@ def scenarios(tier):
     out.append({"name": "t1A||t2A from Aunref + EIO at T1's cid-list append", "init": "Aunref",
                 "threads": {"T1": [MENU["t1A"]], "T2": [MENU["t2A"]]}, "pids": ("p1", "p2"),
                 "faults": {"T1": ("create:open:w:refs/tmp", 1, "EIO", False)}})
+    # a pid that is already bound to OTHER content: the store writes the new object first and is then rejected
+    for a, b in (("s1A", "s2A"), ("s1A", "t2A"), ("s1A", "xA")):
+        out.append({"name": "%s||%s from p1B" % (a, b), "init": "p1B",
+                    "threads": {"T1": [MENU[a]], "T2": [MENU[b]]}, "pids": ("p1", "p2")})
+    out.append({"name": "s1A||s2A from empty + EIO at T1's first reference temp file", "init": "empty",
+                "threads": {"T1": [MENU["s1A"]], "T2": [MENU["s2A"]]}, "pids": ("p1", "p2"),
+                "faults": {"T1": ("create:open:w:refs/tmp", 0, "EIO", False)}})
     # a store whose shard directories are shared by different contents (depth 1, width 1)
     out.append({"name": "dii(S2 wrong)||store(p1,S1) from S2 unreferenced [depth 1 width 1]", "init": "S2unref", "p": "1x1",
                 "threads": {"T1": [("dii", "S2", "badsize")], "T2": [("store", "p1", "S1", None)]}, "pids": ("p1", "p2")})
